@@ -34,7 +34,7 @@ def parseRecs (s : String) : Option (List (List JField)) :=
 def jsonLine (proto agent hdr recs : String) : String :=
   match (hdr.splitOn ",").mapM String.toNat?, parseRecs recs with
   | some h, some rs =>
-    let a := ipString (if agent = "-" then [] else unhex agent)
+    let a := ipBytes (if agent = "-" then [] else unhex agent)
     let out := if proto = "ipfix" then Ipfix.marshal a h rs else V9.marshal a h rs
     hex out
   | _, _ => "bad-op"
